@@ -1,6 +1,7 @@
 package verif
 
 import (
+	cryptorand "crypto/rand"
 	"errors"
 	"hash"
 	"io"
@@ -64,6 +65,14 @@ var randCounter int
 
 //verif:stub for=io.ReadFull
 func stubReadFull(r io.Reader, buf []byte) (int, error) {
+	if r != cryptorand.Reader {
+		// a real reader (e.g. a transcript RNG): read through it
+		n, err := r.Read(buf)
+		if err == nil && n < len(buf) {
+			err = errors.New("short read")
+		}
+		return n, err
+	}
 	randCounter++
 	if AnyBool("rand.fail#" + itoa(randCounter)) {
 		return 0, errors.New("entropy source failed")
